@@ -613,7 +613,7 @@ type rustVec struct {
 
 // rust replays the Rust implementation's recorded batch messages as a foreign trace.
 func (c c04) rust(mo *monitor) {
-	data, err := os.ReadFile("/repo/tokens/batched/batched-issuance-test-vectors-rust.json")
+	data, err := os.ReadFile(core.RepoDir() + "/tokens/batched/batched-issuance-test-vectors-rust.json")
 	if err != nil {
 		mo.res.Infra = "cannot read the Rust interop vectors: " + err.Error()
 		return
